@@ -1027,7 +1027,10 @@ func (s *c20State) opManifest2(what string) {
 // ---------------------------------------------------------------- generators
 
 var c20IntBoundaries = []int64{math.MinInt64, math.MinInt64 + 1, -2, -1, 0, 1, 2, 3, 98, 99, 100, 101, 65535, 65536, 65537, 1 << 31, 1<<31 - 1, 1 << 32,
-	9223372036, 9223372037, math.MaxInt64 - 1, math.MaxInt64}
+	9223372036, 9223372037, math.MaxInt64 - 1, math.MaxInt64,
+	// far above the bounds: values whose product with a unit (seconds -> nanoseconds, 1e9) wraps
+	// around int64 back into the positive range
+	18446744074, 18446744077, 36893488153, 9223372036854775807 / 3, 1 << 62, 1<<62 + 12345, 4611686018427387904 + 9223372036}
 
 var c20Ratios = []string{"1", "1.0000000000000002", "0.9999999999999999", "0", "-0", "-1", "-2.5", "1.5", "2", "10", "10.5", "1.125",
 	"1e21", "1e+22", "123456789012345680", "999999999999999900000", "1e300", "1.7976931348623157e308", "5e-324", "1e-7", "0.000001", "0.5",
